@@ -9,17 +9,17 @@ for l in open(os.path.join(V, "matrix.tsv")):
     r = l.rstrip("\n").split("\t")
     if len(r) >= 3 and r[2] not in ("DONE", "PATCH-FAILED"):
         mx[(r[0], r[1])][r[2]] = (r[3] if len(r) > 3 else "").strip()
+RECT = "missed — rounding of the rectangle's left/right border width (numeric four-border arithmetic with floor division: outside the family, DESIGN.md section 6)"
 NOTES = {
-    ("C01", "C"): "missed — same rounding of the rectangle's left/right border width as C01-B/C06-A (numeric four-border arithmetic, stated as not decided)",
-    ("C06", "C"): "missed — same rounding of the rectangle's left/right border width (numeric four-border arithmetic, stated as not decided)",
-    ("C02", "C"): "missed — `Triangle::is_collapsed` with all() instead of any(): thick-join geometry, stated as not decided",
-    ("C01", "B"): "missed — same change as C06/A: rounding of the rectangle's left/right border width (numeric four-border arithmetic, stated as not decided)",
-    ("C06", "A"): "missed — rounding of the rectangle's left/right border width for odd widths < 2*stroke (numeric four-border arithmetic, stated as not decided)",
-    ("C02", "B"): "missed — `Triangle::is_collapsed` inspects one corner only: thick-join geometry, stated as not decided",
+    ("C01", "B"): RECT, ("C01", "C"): RECT, ("C01", "F"): RECT, ("C06", "A"): RECT, ("C06", "C"): RECT, ("C06", "E"): RECT,
+    ("C07", "E"): "missed — round-half-away-from-zero at thick joins (numeric; equivariance through the join arithmetic is outside the domain, section 6)",
+    ("C17", "A"): "missed — the `flip` flag of the parallels (thick-line phase arithmetic, not claimed, section 6)",
+    ("C17", "C"): "missed — the `flip` flag of the parallels (thick-line phase arithmetic, not claimed, section 6)",
+    ("C20", "C"): "missed — number of rows printed by Debug (iterator adaptor semantics, section 6)",
 }
 rows = []
 for p in sorted(os.listdir(os.path.join(V, "_incoming"))):
-    for v in ("A", "B", "C", "D", "E", "F", "G"):
+    for v in ("A", "B", "C", "D", "E", "F", "G", "H", "I", "J"):
         src = os.path.join(V, "_incoming", p, v)
         if not os.path.isdir(src):
             continue
